@@ -717,6 +717,56 @@ Proof.
   rewrite (H r1), (H r2), E. reflexivity.
 Qed.
 
+(* ------------------------------------------------------------------ order: containers before (after) their contents *)
+Lemma flat_map_split {A B} (f : A -> list B) l a :
+  In a l -> exists l1 l2, flat_map f l = l1 ++ f a ++ l2.
+Proof.
+  intro H. apply in_split in H as [x1 [x2 ->]]. rewrite flat_map_app. simpl.
+  exists (flat_map f x1), (flat_map f x2). reflexivity.
+Qed.
+
+Lemma walk_split sf cf o : forall a,
+  In a (walk sf cf o) -> exists l1 l2, walk sf cf o = l1 ++ walk sf cf a ++ l2.
+Proof.
+  induction o as [k t|t|id c slots IH] using obj_ind'; intros a Ha; try contradiction.
+  apply in_walk_node in Ha as [->|Ha].
+  - exists [], []. rewrite app_nil_r. reflexivity.
+  - apply in_below in Ha as [m [vs [v [H1 [H2 [H3 [H4 H5]]]]]]].
+    destruct (IH_get _ _ _ _ _ IH H1 H3 a H5) as [l1 [l2 E]].
+    destruct (flat_map_split (wslot sf cf) slots (m, vs) H1) as [p1 [p2 Ep]].
+    destruct (flat_map_split (wval sf cf) (slot_vals m vs) v H3) as [q1 [q2 Eq]].
+    assert (Eb : below sf cf slots = (p1 ++ q1 ++ l1) ++ walk sf cf a ++ (l2 ++ q2 ++ p2)).
+    { unfold below. rewrite Ep, wslot_vals, H2, Eq. unfold wval. rewrite H4, E.
+      repeat rewrite <- app_assoc. reflexivity. }
+    rewrite walk_node, Eb. destruct cf.
+    + exists (p1 ++ q1 ++ l1), ((l2 ++ q2 ++ p2) ++ [Node id c slots]).
+      repeat rewrite <- app_assoc. reflexivity.
+    + exists (Node id c slots :: p1 ++ q1 ++ l1), (l2 ++ q2 ++ p2). reflexivity.
+Qed.
+
+Theorem children_order sel sf cf root a b :
+  uniq root -> reach sf a b -> a <> b ->
+  In a (get_children sel root cf sf) -> In b (get_children sel root cf sf) ->
+  exists l1 l2 l3,
+    get_children sel root cf sf =
+    if cf then l1 ++ b :: l2 ++ a :: l3 else l1 ++ a :: l2 ++ b :: l3.
+Proof.
+  intros Hu Hr Hne Ha Hb. rewrite get_children_uniq in * by assumption.
+  apply filter_In in Ha as [Ha Hsa]. apply filter_In in Hb as [_ Hsb].
+  destruct (walk_split sf cf root a Ha) as [L1 [L2 E]].
+  pose proof (walk_only_nodes _ _ _ _ Ha) as Hn.
+  destruct a as [k t|t|id c slots]; try discriminate.
+  apply (reach_walk sf cf) in Hr. apply in_walk_node in Hr as [Hr|Hr]; [congruence|].
+  apply in_split in Hr as [m1 [m2 Em]].
+  rewrite E, walk_node, Em. destruct cf.
+  - exists (filter sel L1 ++ filter sel m1), (filter sel m2), (filter sel L2).
+    repeat (rewrite filter_app; simpl). rewrite Hsa, Hsb.
+    repeat (rewrite <- app_assoc; simpl). reflexivity.
+  - exists (filter sel L1), (filter sel m1), (filter sel m2 ++ filter sel L2).
+    repeat (rewrite filter_app; simpl). rewrite Hsa, Hsb.
+    repeat (rewrite <- app_assoc; simpl). reflexivity.
+Qed.
+
 (* ------------------------------------------------------------------ decidable hypotheses, example tree *)
 From TxV Require Import Model.NavRun.
 
